@@ -59,11 +59,11 @@ TH = {
     "buf": "C05_overwrite, C05_overwrite_flag (the object passed as `overwrite` counts by its truth value)",
     "cont": "C05_continue, C05_continue_batch",
 }
-RULE = ("ONE-STEP SAMPLERS (extension round 2): for every model of the run, sample_h_given_v / sample_v_given_h / sample_a_given_v / sample_v_given_ha called directly on B = 1..3 rows (0/1 rows, or real-valued rows), with a pre-filled out= buffer or without, the REAL torch.bernoulli wrapped in-process: probabilities presented and the returned 0/1 sample against QV.sampleCall replayed on the recorded draws (property level), `out` is the returned object and holds the draw afterwards (aux). "
+RULE = ("ONE-STEP SAMPLERS (extension round 2): for every model of the run, sample_h_given_v / sample_v_given_h / sample_a_given_v / sample_v_given_ha called directly on B = 1..3 rows (0/1 rows, or real-valued rows), with a pre-filled out= buffer or without, the REAL torch.bernoulli wrapped in-process: the returned sample is a 0/1 array of shape B x m (property-level oracle, 0/1 rows only); the call pattern, the probabilities presented (against prob_* of the inputs and against the model) and the returned 0/1 sample against QV.sampleCall replayed on the recorded draws are ALL auxiliary (how the draw is made is not constrained); `out` is the returned object and holds the draw afterwards, the conditioning argument is unmodified, and 0/1-ness on real-valued rows are recorded only (info: not in the property text). "
         "CALL FORMS (extension round 2): per run 4 (thorough: 10) models (plain RBM of a positive state / purification RBM, scale in {0.1,1,3}) x the decorated public conditionals "
         "prob_h_given_v / prob_v_given_h / prob_a_given_v / prob_v_given_ha and PurificationRBM.effective_energy(v[, a]) on random 0/1 tensors in the forms vector, batch (B = 1, 2, 3), "
         "rank-3, and for the two-operand methods every mixture (1-D h with batched a: refused unless one row; batched h with 1-D a; one-row batch with 1-D a: axis lost) "
-        "against the model of auto_unsqueeze_args (accepted-or-refused, exact shape, entries; vector / equal-batch forms property level, rank-3 and mixed forms aux); "
+        "against the model of auto_unsqueeze_args (accepted-or-refused, exact shape, entries; vector / equal-batch forms of the four conditionals property level; effective_energy, which the property never names, aux with its vector-form shape recorded only; rank-3 and mixed forms are outside the quantifier: outcome, shape and entries recorded only (info)); "
         "model case = (state kind pos/cplx/dens, n<=4, h<=4, a<=3, scale in {0.1,1,3,10,30}, all parameters scale*N(0,1), all biases "
         "non-zero); part (a): all 2^n visible / 2^h hidden / 2^(h+a) hidden+aux configurations plus real-valued rows, vector and "
         "batched forms; part (b): replay case = (model, k in 0..3, start = every basis state as a batch (n<=3) or random batch / single "
@@ -1124,7 +1124,10 @@ def callform_case(ctx, case):
     y = None if case.get("y") is None else torch.tensor(case["y"]["rows"], dtype=torch.double).reshape(*case["y"]["lead"], dims[1])
     xl, yl = case["x"]["lead"], (None if y is None else case["y"]["lead"])
     plain = len(xl) <= 1 and (yl is None or yl == xl)
-    level = "property" if plain else "aux"
+    # audit 3, B-4: C05 never mentions effective_energy (parts (a)/(e) tie it at aux) -> aux at most, and its VECTOR-form shape (docstring
+    # "(b,) or (1,)") is only recorded; B-15: forms outside the quantifier (mixed ranks, rank-3) are recorded only - outcome, shape, entries
+    energy = fn == "p_energy"
+    level = ("aux" if energy else "property") if plain else "info"
     thm = "C05_call_forms_ha" if fn == "p_v_given_ha" else CALLFORM_THEOREM
     form = f"x{xl}" + ("" if yl is None else f"/y{yl}")
     ctx.case(case, nontrivial=any(v != 0 for v in am["b"]) and any(v != 0 for v in am["c"]), sample={"callform": fn, "x": xl, "y": yl})
@@ -1136,15 +1139,42 @@ def callform_case(ctx, case):
     x0 = x.clone()
     impl = cs.impl_result(f, "scalar" if fn == "p_energy" else "vec")
     ctx.count(f"callform/{fn}: " + ("refused" if impl["refused"] else "accepted"))
-    if plain:
+    if plain and not energy:
         ctx.oracle("vector / batch call form accepted, leading shape kept", (not impl["refused"]) and impl["shape"] == xl, case,
                    detail=impl.get("exc") or {"shape": impl.get("shape")}, sig=f"callform/{fn}/shape-oracle", theorem=thm)
+    elif plain:
+        # effective_energy is not C05's subject: no property oracle (audit 3, B-4)
+        ctx.info(f"callform/{fn}: vector / batch form accepted, leading shape kept", (not impl["refused"]) and impl["shape"] == xl, True)
     if ctx.driver is not None:
         req = {"fn": fn, "n": n, "h": h, "a": a, "r": qc.pbits(am), "x": cs.arg(x), "y": None if y is None else cs.arg(y)}
         model = cs.model_result(ctx.driver.call("c05.callform", **req))
         sc = float(np.max(np.abs(impl["data"]))) + 1e-300 if not impl["refused"] and impl["data"].size else 1.0
-        cs.compare(ctx, f"{fn} ({form})", level, impl, model, case, thm, f"callform/{fn}/" + ("plain" if plain else "other"), scale=sc)
+        _cf_compare(ctx, f"{fn} ({form})", level, impl, model, case, thm, f"callform/{fn}/" + ("plain" if plain else "other"), sc,
+                    shape_info=energy and xl == [])
     ctx.point("argument unmodified (call forms)", "aux", bool(torch.equal(x, x0)), True, case, exact=True, sig="callform/arg-modified")
+
+
+def _cf_compare(ctx, name, level, impl, model, case, theorem, sig, scale, shape_info=False):
+    """cs.compare with two extra levels of restraint (audit 3, B-4 / B-15): level "info" = a call form outside the property's quantifier
+    ("every state type", vector and batched states): outcome, shape and entries are RECORDED, never judged (a per-position decorator fix or
+    an up-front rank check keeps the property); shape_info = the result shape is recorded only, the entries are compared flat"""
+    if level != "info" and not shape_info:
+        return cs.compare(ctx, name, level, impl, model, case, theorem, sig, scale=scale)
+    ishape = [int(x) if not isinstance(x, str) else x for x in impl["shape"]] if not impl["refused"] else None
+    if level == "info":
+        if not ctx.info(name + ": accepted / refused (form outside the quantifier)", impl["refused"], model["refused"]) or impl["refused"]:
+            return
+        if ctx.info(name + ": result shape (form outside the quantifier)", ishape, model["shape"]):
+            a, b = impl["data"].ravel(), model["data"].ravel()
+            ctx.info(name + ": entries (form outside the quantifier)", bool(a.shape == b.shape and np.allclose(a, b, rtol=1e-9, atol=1e-12 * scale)), True)
+        return
+    ok = ctx.point(name + ": accepted / refused", level, "refused" if impl["refused"] else "accepted",
+                   "refused" if model["refused"] else "accepted", case, exact=True, theorem=theorem, sig=sig + "/outcome")
+    if not ok or impl["refused"]:
+        return
+    ctx.info(name + ": result shape (vector form of a method the property does not name)", ishape, model["shape"])
+    if impl["data"].size == model["data"].size:
+        ctx.point(name + ": entries", level, impl["data"].ravel(), model["data"].ravel(), case, scale=scale, theorem=theorem, sig=sig + "/entries")
 
 
 def gen_callforms(ctx, thorough):
@@ -1229,10 +1259,17 @@ def sstep_case(ctx, case):
     # constrained by the property: the scripted replay below applies only to the first form - ONE auxiliary point says whether it does
     ctx.point(f"{tag}: the draw is one torch.bernoulli call on a B x m tensor (scripted replay applicable)", "aux", bool(ok_calls), True, case,
               exact=True, sig=sig + "/call-pattern", theorem="C05_sample_out_identity")
-    ctx.oracle(f"{tag}: the returned sample is a 0/1 array of shape B x m", tuple(resv.shape) == (B, m) and bool(np.all((resv == 0) | (resv == 1))), case,
-               detail={"result": resv.tolist()}, sig=sig + "/values01", theorem="C05_sample_out_identity, C05_values_shape")
+    vals_ok = tuple(resv.shape) == (B, m) and bool(np.all((resv == 0) | (resv == 1)))
+    if case["bits"]:
+        ctx.oracle(f"{tag}: the returned sample is a 0/1 array of shape B x m", vals_ok, case,
+                   detail={"result": resv.tolist()}, sig=sig + "/values01", theorem="C05_sample_out_identity, C05_values_shape")
+    else:
+        # audit 3, B-11: a REAL-valued conditioning row is no state of the chain ("every start state" = 0/1 states): recorded only
+        ctx.info(f"sample_{fn}: 0/1 array of shape B x m on real-valued conditioning rows", vals_ok, True)
     inputs_ok = all(np.array_equal(t.numpy(), ref) for t, ref in zip(targs, [x] + ([y] if y is not None else [])))
-    ctx.oracle(f"{tag}: the conditioning state is not modified", inputs_ok, case, sig=sig + "/inputs")
+    # audit 3, B-11: C05's "left untouched" clause is about the start state of sample / gibbs_steps (judged in part (b)), not about the
+    # conditioning argument of a direct sample_* call: recorded only
+    ctx.info(f"sample_{fn}: the conditioning state is not modified", inputs_ok, True)
     if not ok_calls:
         return
     P, D = rec.calls[0]["p"], rec.calls[0]["draw"]
@@ -1258,11 +1295,12 @@ def sstep_case(ctx, case):
             ctx.point(f"{tag}: probabilities presented", "aux", P[b], unbits(mo["probs"]), cs, sig=sig + "/probs", theorem="C05_sample_step_law + " + TH["cond"])
             ctx.point(f"{tag}: returned sample", "aux", bits(resv[b]), mo["result"], cs, exact=True, sig=sig + "/result",
                       theorem="C05_sample_out_identity, C05_sample_step_law")
-            # the out= buffer contract of the one-step samplers is not in the property text (only gibbs_steps' overwrite is): auxiliary
+            # the out= buffer contract of the one-step samplers is not in the property text (only gibbs_steps' overwrite is) and `res is out`
+            # is undocumented (":returns: the sampled hidden state"): recorded only (audit 3, B-18); C05_gibbs_step_buffers is a bridge
+            # lemma no driver op executes, so it is not named here
             impl_buf = [res is out, bits(out.numpy()[b])] if with_out else [False, None]
-            ctx.point(f"{tag}: `out` is the returned object and holds the 0/1 draw afterwards", "aux", impl_buf,
-                      [mo["out_id"] is not None and mo["result_id"] == mo["out_id"], mo["out"]], cs, exact=True, sig=sig + "/out-identity",
-                      theorem="C05_sample_out_identity, C05_gibbs_step_buffers")
+            ctx.info(f"sample_{fn}({'out=buf' if with_out else 'no out'}): `out` is the returned object and holds the 0/1 draw afterwards", impl_buf,
+                     [mo["out_id"] is not None and mo["result_id"] == mo["out_id"], mo["out"]])
     ctx.case({"sstep": [kind, n, h, a, fn, B, with_out, case["bits"], case["xseed"]]}, nontrivial=True,
              sample={"sstep": fn, "kind": kind, "out": with_out, "B": B})
 
